@@ -35,6 +35,24 @@ theorem read_wipe_sp (fs : FS) (p : Path) (h : p.isWork = false) : read (wipe fs
       simp only [wipe, List.filter, Path.isWork, Bool.not_false] at ih ⊢
       simp only [read, ih]
 
+theorem read_remove_ne {q p : Path} (fs : FS) (h : q ≠ p) : read (remove q fs) p = read fs p := by
+  induction fs with
+  | nil => rfl
+  | cons e r ih =>
+    obtain ⟨k, c⟩ := e
+    by_cases hk : k = q
+    · subst hk; simp [remove, read, h, ih]
+    · simp [remove, read, hk, ih]
+
+theorem read_remove_eq (p : Path) (fs : FS) : read (remove p fs) p = none := by
+  induction fs with
+  | nil => rfl
+  | cons e r ih =>
+    obtain ⟨k, c⟩ := e
+    by_cases hk : k = p
+    · subst hk; simp [remove, ih]
+    · simp [remove, read, hk, ih]
+
 /-! ### `copyAll` -/
 
 /-- both the source and the destination of `u` hold the same content -/
@@ -278,6 +296,44 @@ theorem restoreOps_frame (L : Lister) (sid : Nat) (p : Path) (hp : p.isWork = fa
     read (restoreOps L sid fs ops).1 p = read fs p := by
   apply copyOps_frame
   intro u hh; subst hh; simp [Path.isWork] at hp
+
+/-! ### later activity never touches savepoint directories -/
+
+theorem cleanup_frame (p : Path) (hp : p.isWork = false) : ∀ (ids : List Nat) (fs : FS),
+    read (cleanup fs ids) p = read fs p := by
+  intro ids
+  induction ids with
+  | nil => intro fs; rfl
+  | cons id r ih =>
+    intro fs
+    simp only [cleanup]
+    rw [ih, read_remove_ne]
+    intro hh; subst hh; simp [Path.isWork] at hp
+
+theorem applyWork_frame (p : Path) (hp : p.isWork = false) : ∀ (ops : List WorkOp) (fs : FS),
+    read (applyWork fs ops) p = read fs p := by
+  intro ops
+  induction ops with
+  | nil => intro fs; rfl
+  | cons o r ih =>
+    intro fs
+    cases o with
+    | put u c =>
+      simp only [applyWork]; rw [ih, read_write_ne]
+      intro hh; subst hh; simp [Path.isWork] at hp
+    | del u =>
+      simp only [applyWork]; rw [ih, read_remove_ne]
+      intro hh; subst hh; simp [Path.isWork] at hp
+
+theorem load_frame (L : Lister) (p : Path) (hp : p.isWork = false) (fs : FS) (sid : Nat) :
+    read (loadFromSavepoint L fs sid).1 p = read fs p := by
+  unfold loadFromSavepoint
+  split
+  · rename_i s _
+    have := restoreOps_frame L sid p hp s.ops fs
+    cases hr : restoreOps L sid fs s.ops with
+    | mk fs' ok => rw [hr] at this; cases ok <;> exact this
+  · rfl
 
 /-! ### reading a DKV image -/
 
